@@ -68,9 +68,29 @@ func (m *C11) After(w *world.World, a *world.Action, r *world.StepResult) *Viola
 	per, _ := world.Footprints(w.DumpStore(providertypes.StoreKey))
 	ub, _ := w.P.PApp.StakingKeeper.UnbondingTime(ctx)
 
+	deletedNow := 0
+	for _, id := range w.ConsumerIDs() {
+		if k.GetConsumerPhase(ctx, id) == world.PhDeleted && m.prePhase[id] == world.PhStopped {
+			deletedNow++
+		}
+	}
+	if deletedNow >= 2 {
+		w.Label("deleted-together")
+	}
 	for _, id := range w.ConsumerIDs() {
 		ph := k.GetConsumerPhase(ctx, id)
 		fp := per[id]
+		if ph == world.PhStopped {
+			nq := 0
+			for key := range fp {
+				if len(key) > 3 && key[:3] == "q52" {
+					nq++
+				}
+			}
+			if nq >= 2 {
+				w.Label("stopped-repeatedly")
+			}
+		}
 		if chID, ok := k.GetConsumerIdToChannelId(ctx, id); ok {
 			m.channel[id] = chID
 		}
